@@ -559,6 +559,76 @@ def _cli_interrupt_job(args):
     return res, what
 
 
+def _crash_stop_job(args):
+    """C14 when the tokenizer thread has died (its validator raised on window k) before the stop: stop_all() still returns, every
+    thread ends and the saved stream holds exactly the blocks that were read"""
+    idx, nblocks, k, seed_ = args
+    sys.path.insert(0, C.REPO)
+    import random
+    import threading
+    from auditok.util import AudioReader
+    from auditok import workers as W
+    rr = random.Random(seed_)
+    d = os.path.join(C.TMP, "crash_%d_%d" % (os.getpid(), idx))
+    os.makedirs(d, exist_ok=True)
+    old_hook = threading.excepthook
+    threading.excepthook = lambda a: None
+    try:
+        data = bytes(rr.getrandbits(8) for _ in range(nblocks * WIN * SW * CH))
+        pth = os.path.join(d, "s.wav")
+        seen = []
+
+        def validator(frame):
+            seen.append(1)
+            if len(seen) == k + 1:
+                raise RuntimeError("validator failure injected by the check")
+            return True
+        rd = AudioReader(data, sampling_rate=RATE, sample_width=SW, channels=CH, block_dur=BD)
+        sv = W.StreamSaverWorker(rd, pth, cache_size_sec=rr.choice([0, BD, 100.0]), timeout=0.05)
+
+        class Rec(W.Worker):
+            def __init__(self):
+                self.got = []
+                super().__init__(timeout=0.05)
+
+            def _process_message(self, m):
+                self.got.append(m[0])
+        ob = Rec()
+        tok = W.TokenizerWorker(sv, observers=[ob], validator=validator, min_dur=BD, max_dur=5 * BD, max_silence=0, analysis_window=BD)
+        sv.start()          # the stream saver is started by its owner (as cmdline.main does), start_all() starts the observers and the tokenizer
+        tok.start_all()
+        tok.join(5)
+        what = None
+        if tok.is_alive():
+            what = "harness: the tokenizer thread did not die from the injected validator failure"
+        done = []
+        th = threading.Thread(target=lambda: (tok.stop_all(), done.append(1)), daemon=True)
+        th.start()
+        th.join(8)
+        if what is None and not done:
+            what = "stop_all() after the tokenizer thread died (validator raised on window %d) did not return within 8 s" % k
+        alive = [n for n, t in (("tokenizer", tok), ("observer", ob), ("stream saver", sv)) if t.is_alive()]
+        if what is None and alive:
+            what = "after stop_all() (tokenizer thread dead since its validator raised on window %d): still alive: %s" % (k, ", ".join(alive))
+        if not alive:
+            f = read_wav(pth) if os.path.exists(pth) else {"error": "not written"}
+            want = data[:(k + 1) * WIN * SW * CH]
+            if what is None and "error" in f:
+                what = "after stop_all() (tokenizer thread dead): the saved stream is not a valid wav file (%s)" % f["error"]
+            elif what is None and f["frames"] != want:
+                what = "after stop_all() (tokenizer thread dead since window %d): the saved stream holds %d bytes, the %d blocks read make %d" % (k, len(f["frames"]), k + 1, len(want))
+        else:
+            for t in (ob, sv):          # do not leave threads behind in the pool worker
+                try:
+                    t.send(W._STOP_PROCESSING)
+                except Exception:
+                    pass
+        return {"blocks": nblocks, "validator_raises_on_window": k}, what
+    finally:
+        threading.excepthook = old_hook
+        shutil.rmtree(d, ignore_errors=True)
+
+
 def _two_savers_job(args):
     """C13 with two stream savers alive in the same process (two recordings at once): each file holds exactly its own stream"""
     idx, n1, n2, cache_sec, seed_ = args
@@ -737,6 +807,15 @@ def run(prop, tier):
                 cli_runs.append(res_c)
                 if what and "C14" not in violations:
                     violations["C14"] = {"what": what, "cli_run": res_c}
+        kj = []
+        for i in range(6 if quick else 60):
+            nb = r.randint(3, 25)
+            kj.append((i, nb, r.randint(0, nb - 1), r.randrange(1 << 30)))
+        with mp.get_context("fork").Pool(min(C.NCPU, 8)) as pool:
+            for res_k, what in pool.imap_unordered(_crash_stop_job, kj, chunksize=1):
+                if what and "C14" not in violations:
+                    violations["C14"] = {"what": what, "crash_then_stop_run": res_k}
+        hist["stop_after_tokenizer_crash_runs"] = len(kj)
         hist["cli_interrupt_runs"] = len(cli_runs)
         hist["cli_interrupted_mid_stream"] = sum(1 for c in cli_runs if c.get("blocks_read", 10 ** 9) < len(c["pattern"]))
     if prop == "C13":
